@@ -18,10 +18,10 @@ PROP=$UP
 W=$(mktemp -d /tmp/sv-XXXXXX); rmdir "$W"
 git -C /repo worktree add -q --detach "$W" HEAD || exit 2
 cp -r "$DST/demo" "$W/demo"
-( cd "$W" && timeout 300 go test -count=1 ./demo >"$DST/demo_without.txt" 2>&1 ); RC_WITHOUT=$?
+( cd "$W" && timeout 600 go test ${DEMO_FLAGS:-} -count=1 ./demo >"$DST/demo_without.txt" 2>&1 ); RC_WITHOUT=$?
 ( cd "$W" && git apply "$DST/patch.diff" ) || { echo "patch does not apply to HEAD"; git -C /repo worktree remove --force "$W"; exit 2; }
 ( cd "$W" && go build ./engine ./builder ./context ./internal/... ) || { echo "does not build"; git -C /repo worktree remove --force "$W"; exit 2; }
-( cd "$W" && timeout 300 go test -count=1 ./demo >"$DST/demo_with.txt" 2>&1 ); RC_WITH=$?
+( cd "$W" && timeout 600 go test ${DEMO_FLAGS:-} -count=1 ./demo >"$DST/demo_with.txt" 2>&1 ); RC_WITH=$?
 git -C /repo worktree remove --force "$W"
 echo "demo: without change rc=$RC_WITHOUT (want 0), with change rc=$RC_WITH (want !=0)"
 # 2. baseline suite + checks against /repo with the change applied, then restore
